@@ -1301,7 +1301,7 @@ def run_cases(ctx: Ctx, cases, origin):
                     return oracle(fam, T, c, real_run(fam, T, build_argv(fam, c), default=default_of(c))) is not None and not has_dk_before_change(fam, T, c) \
                         and reference(fam, T, c) != ("reject", "noneForScalar")
 
-                small = shrink_sources(fam, T, sources, still)
+                small = shrink_sources(fam, T, sources, still) if len(ctx.violations) < 5 else sources
                 a2 = build_argv(fam, small)
                 r2 = real_run(fam, T, a2, default=default_of(small))
                 r2.pop("root", None)
